@@ -33,7 +33,8 @@
 //!
 //! When allocating a page:
 //! 1. If the current trunk has free pages, pop one from the array
-//! 2. If the current trunk is empty but has a next_trunk, move to that trunk
+//! 2. If the current trunk is empty, hand out the trunk page itself and make
+//!    next_trunk the head
 //! 3. If no free pages exist, return None (caller must grow the file)
 //!
 //! When releasing a page:
@@ -213,13 +214,12 @@ impl Freelist {
         };
 
         if count == 0 {
-            if next_trunk == 0 {
-                self.head_page = 0;
-                self.free_count = 0;
-                return Ok(None);
-            }
+            // An empty trunk page is itself a free page (it was released and is
+            // counted in free_count): hand it out and move to the next trunk.
+            let page_no = self.head_page;
             self.head_page = next_trunk;
-            return self.allocate(storage);
+            self.free_count -= 1;
+            return Ok(Some(page_no));
         }
 
         let entry_index = (count - 1) as usize;
@@ -244,10 +244,6 @@ impl Freelist {
         let trunk = TrunkHeader::from_bytes_mut(&mut page_data[trunk_offset..])?;
         trunk.set_count(count - 1);
         self.free_count -= 1;
-
-        if count - 1 == 0 {
-            self.head_page = next_trunk;
-        }
 
         Ok(Some(page_no))
     }
